@@ -127,6 +127,7 @@ func (eng *Engine) Verify(fn *ssa.Function, spec *FuncSpec, tags map[string]bool
 	results, hout, gout := e.run(f, args, h0.clone(), "true")
 	if spec != nil && gout != "false" {
 		full := append(append([]Val{}, args...), results...)
+		e.applyGhostSets(spec, full, hout, gout)
 		for _, c := range spec.Clauses {
 			switch c.Kind {
 			case KEnsures:
@@ -155,6 +156,27 @@ func (eng *Engine) Verify(fn *ssa.Function, spec *FuncSpec, tags map[string]bool
 			}
 		}
 	}
+	if spec != nil && gout != "false" {
+		var obs [][2]string
+		full := append(append([]Val{}, args...), results...)
+		for _, c := range spec.Clauses {
+			if c.Kind == KObserve {
+				v := e.evalSpecVal(eng.ld.specFunc(spec, c), full, hout)
+				obs = append(obs, [2]string{c.Label, v.T})
+			}
+		}
+		for _, p := range fn.Params {
+			switch p.Type().Underlying().(type) {
+			case *types.Basic:
+				obs = append(obs, [2]string{"param:" + p.Name(), f.vals[p].T})
+			}
+		}
+		n := len(e.s.lines)
+		for _, o := range e.obls {
+			o.Observe = obs
+			o.ObservePrefix = n
+		}
+	}
 	res.Obls = e.obls
 	for k := range e.inlined {
 		res.Inlined = append(res.Inlined, k)
@@ -180,6 +202,13 @@ func (o *Obligation) Text(solver string) string {
 	}
 	b.WriteString(o.Script.preamble())
 	decls, lines := o.Script.slice(o.Prefix, o.Guard+" "+o.Goal)
+	if len(o.Observe) > 0 {
+		seed := o.Guard + " " + o.Goal
+		for _, ob := range o.Observe {
+			seed += " " + ob[1]
+		}
+		decls, _ = o.Script.slice(o.ObservePrefix, seed)
+	}
 	body := strings.Join(decls, "\n") + "\n" + strings.Join(lines, "\n") + "\n"
 	g, goal := o.Guard, not(o.Goal)
 	fix := func(t string) string {
@@ -195,6 +224,24 @@ func (o *Obligation) Text(solver string) string {
 	}
 	b.WriteString("(assert " + fix(goal) + ")\n")
 	b.WriteString("(check-sat)\n(get-model)\n")
+	if len(o.Observe) > 0 {
+		// definitions the observed terms need (they follow the obligation in program order)
+		var terms []string
+		for _, ob := range o.Observe {
+			terms = append(terms, fix(ob[1]))
+		}
+		_, extra := o.Script.slice(o.ObservePrefix, strings.Join(terms, " "))
+		have := map[string]bool{}
+		for _, l := range lines {
+			have[l] = true
+		}
+		for _, l := range extra {
+			if strings.HasPrefix(l, "(define-fun ") && !have[l] {
+				b.WriteString(fix(l) + "\n")
+			}
+		}
+		b.WriteString("(echo \"OBSERVE\")\n(get-value (" + strings.Join(terms, " ") + "))\n")
+	}
 	return b.String()
 }
 
